@@ -158,4 +158,243 @@ theorem empty_as_origin [Zero K] [DecidableEq K] (T : List (K × K)) (rows : Lis
 
 end Diagrams
 
+
+/-! ### the two extraction loops -/
+
+section Extraction
+variable {K : Type} {M N : Nat} {c : Fin M → Fin N → K} {u : Fin M → K} {v : Fin N → K}
+  {D : Nat → Nat → Option K} {σ : List Nat}
+
+/-- "every perfect matching of the finite entries of `D` selects some entry `≥ d`": `d` is the least
+    feasible threshold (explicit hypothesis here; it is what C01 proves about the bisect loop) -/
+def LeastFeasible [LE K] (M N : Nat) (D : Nat → Nat → Option K) (d : K) : Prop :=
+  ∀ τ : List Nat, τ.Perm (List.range (M + N)) → AllFinite M N D τ →
+    ∃ i < M + N, ∃ e, selected D τ i = some e ∧ d ≤ e
+
+/-- **`extractRows_bn_accepted`**.  For every augmented matrix `D` and every perfect matching `σ`
+    of its finite entries (a permutation of the `M+N` indices, as a list): the bottleneck loop
+    returns rows, the checker accepts them (structure and every third entry), and if all selected
+    entries are `≤ d` where `d` is the least feasible threshold, their maximum is exactly `d`.
+    `0 ≤` costs (`b ≤ d` for every point) enters only through `extracted_max`: when the largest
+    selected entry lies in the dropped zero block. -/
+theorem extractRows_bn_accepted [LinearOrder K] [Zero K] (hD : IsAug M N c u v D)
+    (hσ : σ.Perm (List.range (M + N))) (hfin : AllFinite M N D σ) :
+    ∃ rows, extractRowsBn M N D σ = some rows ∧ checkCore M N c u v rows = true
+      ∧ ∀ d : K, 0 < M + N → (∀ i j, 0 ≤ c i j) → (∀ i, 0 ≤ u i) → (∀ j, 0 ≤ v j)
+          → (∀ i < M + N, ∀ e, selected D σ i = some e → e ≤ d) → LeastFeasible M N D d
+          → rowsMax rows = some d := by
+  refine ⟨_, extractRowsBn_eq hfin, extracted_checkCore hD hσ (stepFun_bnG hfin), ?_⟩
+  intro d hpos hc0 hu0 hv0 hle hleast
+  obtain ⟨i, hi, e, he, hde⟩ := hleast σ hσ hfin
+  have : e = d := le_antisymm (hle i hi e he) hde
+  exact extracted_max hD hσ hfin hpos hc0 hu0 hv0 hle ⟨i, hi, this ▸ he⟩
+
+/-- **`extractRows_ws_accepted`**: the Wasserstein post-processing (re-index, drop `i + j = -2`)
+    returns rows the checker accepts, and their sum is the sum of ALL selected entries, i.e. the
+    reported `matchdist` (the dropped rows lie in the zero block). -/
+theorem extractRows_ws_accepted [AddCommMonoid K] [DecidableEq K] (hD : IsAug M N c u v D)
+    (hσ : σ.Perm (List.range (M + N))) (hfin : AllFinite M N D σ) :
+    ∃ rows, extractRowsWs M N D σ = some rows ∧ checkCore M N c u v rows = true
+      ∧ selectedSum M N D σ = some (rowsSum rows) :=
+  ⟨_, extractRowsWs_eq hfin, extracted_checkCore hD hσ (stepFun_bnG hfin), extracted_sum hD hσ hfin⟩
+
+/-- both loops return the same rows for the same assignment -/
+theorem extractRows_ws_eq_bn [Zero K] (hfin : AllFinite M N D σ) :
+    extractRowsWs M N D σ = extractRowsBn M N D σ := by
+  rw [extractRowsWs_eq hfin, extractRowsBn_eq hfin]
+
+/-- a permutation of `Fin (M+N)` as the list the model consumes -/
+def permList {n : Nat} (σ : Equiv.Perm (Fin n)) : List Nat := List.ofFn fun i => ((σ i : Fin n) : Nat)
+
+theorem permList_perm {n : Nat} (σ : Equiv.Perm (Fin n)) : (permList σ).Perm (List.range n) := by
+  have h := σ.ofFn_comp_perm (fun i : Fin n => (i : Nat))
+  have e : List.ofFn (fun i : Fin n => (i : Nat)) = List.range n := by
+    rw [List.ofFn_eq_map, List.map_coe_finRange_eq_range]
+  rw [e] at h
+  exact h
+
+/-- the same two theorems for `σ : Equiv.Perm (Fin (M+N))` -/
+theorem extractRows_accepted_of_equiv [AddCommMonoid K] [DecidableEq K] (hD : IsAug M N c u v D)
+    (τ : Equiv.Perm (Fin (M + N))) (hfin : AllFinite M N D (permList τ)) :
+    ∃ rows, extractRowsBn M N D (permList τ) = some rows ∧ extractRowsWs M N D (permList τ) = some rows
+      ∧ checkCore M N c u v rows = true ∧ selectedSum M N D (permList τ) = some (rowsSum rows) :=
+  ⟨_, extractRowsBn_eq hfin, extractRowsWs_eq hfin,
+    extracted_checkCore hD (permList_perm τ) (stepFun_bnG hfin), extracted_sum hD (permList_perm τ) hfin⟩
+
+end Extraction
+
+/-! ### the flag -/
+
+/-- **`matching_flag_irrelevant`** (bottleneck model): the distance component of the two entry
+    points is the same value (the comparison on the real code is done by the harness). -/
+theorem matching_flag_irrelevant_bn {α : Type} (bdist : α) (M N : Nat) (D : Nat → Nat → Option α)
+    (σ : List Nat) : (bnReturn true bdist M N D σ).1 = (bnReturn false bdist M N D σ).1 := rfl
+
+/-- **`matching_flag_irrelevant`** (Wasserstein model) -/
+theorem matching_flag_irrelevant_ws {α : Type} [Add α] [Zero α] (M N : Nat) (D : Nat → Nat → Option α)
+    (σ : List Nat) : (wsReturn true M N D σ).1 = (wsReturn false M N D σ).1 := rfl
+
+
+/-! ### end to end on the model: extraction from the model's own matrix, then the checker -/
+
+/-- for any two diagrams, any cost rule and any perfect matching `σ` of the finite entries of the
+    model's augmented matrix, both loops return the same rows and `checkRows` accepts them -/
+theorem extracted_rows_pass_checkRows {K : Type} [Zero K] [DecidableEq K] (pc : K × K → K × K → K)
+    (dc : K × K → K) (S T : List (K × K)) (σ : List Nat)
+    (hσ : σ.Perm (List.range ((placeholder S).length + (placeholder T).length)))
+    (hfin : AllFinite (placeholder S).length (placeholder T).length
+      (augD pc dc (placeholder S) (placeholder T)) σ) :
+    ∃ rows,
+      extractRowsBn (placeholder S).length (placeholder T).length (augD pc dc (placeholder S) (placeholder T)) σ
+        = some rows
+      ∧ extractRowsWs (placeholder S).length (placeholder T).length (augD pc dc (placeholder S) (placeholder T)) σ
+        = some rows
+      ∧ checkRows pc dc S T rows = true :=
+  ⟨_, extractRowsBn_eq hfin, extractRowsWs_eq hfin,
+    extracted_checkCore (augD_isAug pc dc _ _) hσ (stepFun_bnG hfin)⟩
+
+/-! ### the two cost rules of persim -/
+
+section CostRules
+variable {K : Type} [Field K] [LinearOrder K] [IsStrictOrderedRing K]
+
+omit [IsStrictOrderedRing K] in
+/-- the driver's L∞ cost (core classes only) is the specification's `linf` -/
+theorem linfM_eq : (linfM : K × K → K × K → K) = linf := by
+  funext p q
+  simp only [linfM, absM, linf, abs_eq_max_neg]
+
+omit [LinearOrder K] [IsStrictOrderedRing K] in
+/-- the driver's `(d-b)/2` is the specification's `diagInf` -/
+theorem diagInfM_eq : (diagInfM : K × K → K) = diagInf := rfl
+
+theorem placeholder_proper {S : List (K × K)} (hS : ∀ p ∈ S, p.1 ≤ p.2) :
+    ∀ p ∈ placeholder S, 0 ≤ diagInf p := by
+  intro p hp
+  have : p.1 ≤ p.2 := by
+    cases S with
+    | nil => simp only [placeholder, List.mem_singleton] at hp; rw [hp]
+    | cons a t => exact hS p hp
+  unfold diagInf
+  have : 0 ≤ p.2 - p.1 := sub_nonneg.mpr this
+  positivity
+
+/-- **bottleneck, what the driver op `cert.rows.bn` decides** (any linear ordered field, in
+    particular ℚ = the driver's `Rat`): accepted rows with maximum `d` are a partial matching of the
+    placeholder-adjusted diagrams with all L∞ / `(d-b)/2` costs `≤ d` and one `= d`; if `d` is the
+    bottleneck cost (C01), no partial matching does better. -/
+theorem bottleneck_rows_certify (S T : List (K × K)) (hS : ∀ p ∈ S, p.1 ≤ p.2) (hT : ∀ p ∈ T, p.1 ≤ p.2)
+    (rows : List (Row K)) (d : K) (h : checkRowsBn linfM diagInfM S T rows d = true) :
+    ∃ p : PM (PIdx S) (PIdx T), p.MaxLE (cP linf S T) (uP diagInf S) (uP diagInf T) d
+      ∧ AttainsMax p (cP linf S T) (uP diagInf S) (uP diagInf T) d
+      ∧ (IsBottleneck (cP linf S T) (uP diagInf S) (uP diagInf T) d →
+          ∀ (q : PM (PIdx S) (PIdx T)) (d' : K),
+            q.MaxLE (cP linf S T) (uP diagInf S) (uP diagInf T) d' → ¬ d' < d) := by
+  rw [linfM_eq, diagInfM_eq] at h
+  obtain ⟨p, hp, ha⟩ := checkRows_sound_bn linf diagInf S T rows d
+    (fun p q => le_max_of_le_left (abs_nonneg _)) (placeholder_proper hS) (placeholder_proper hT) h
+  exact ⟨p, hp, ha, fun hB q d' hq => not_lt.mpr (hB.least q d' hq)⟩
+
+end CostRules
+
+section Reals
+open PersimVerif.C07
+
+/-- the driver's Euclidean cost with `sqrt := Real.sqrt` is C07's `euclid` -/
+theorem euclidM_eq : (euclidM Real.sqrt : ℝ × ℝ → ℝ × ℝ → ℝ) = euclid := by
+  funext p q
+  simp only [euclidM, euclid, pow_two]
+
+/-- the driver's `(d-b)/√2` is C07's `diagL2` -/
+theorem diagL2M_eq : (diagL2M Real.sqrt : ℝ × ℝ → ℝ) = diagL2 := rfl
+
+/-- the placeholder-adjusted diagram as a function on its index type -/
+abbrev pts (S : List Pt) : PIdx S → Pt := fun i => (placeholder S)[i]
+
+/-- **C06 for the bottleneck distance, over ℝ with C07's cost system**: if `d` is the bottleneck
+    distance of the placeholder-adjusted diagrams (C01) then rows accepted by the checker with
+    maximum `d` are an optimal matching. -/
+theorem bottleneck_matching_certifies (S T : List Pt) (hS : ∀ p ∈ S, p.1 ≤ p.2) (hT : ∀ p ∈ T, p.1 ≤ p.2)
+    (rows : List (Row ℝ)) (d : ℝ) (h : checkRowsBn linfM diagInfM S T rows d = true)
+    (hB : IsBn (pts S) (pts T) d) :
+    ∃ p : PM (PIdx S) (PIdx T), p.MaxLE (cB (pts S) (pts T)) (uB (pts S)) (uB (pts T)) d
+      ∧ AttainsMax p (cB (pts S) (pts T)) (uB (pts S)) (uB (pts T)) d
+      ∧ ∀ (q : PM (PIdx S) (PIdx T)) (d' : ℝ),
+          q.MaxLE (cB (pts S) (pts T)) (uB (pts S)) (uB (pts T)) d' → ¬ d' < d := by
+  obtain ⟨p, hp, ha, hopt⟩ := bottleneck_rows_certify S T hS hT rows d h
+  exact ⟨p, hp, ha, hopt hB⟩
+
+/-- **C06 for the Wasserstein distance, over ℝ with C07's cost system**: rows accepted by the
+    checker are a partial matching whose total Euclidean / `(d-b)/√2` cost is the sum of the third
+    entries; if that sum is the Wasserstein distance `w` (C02) the matching is optimal. -/
+theorem wasserstein_matching_certifies (S T : List Pt) (rows : List (Row ℝ)) (w : ℝ)
+    (h : checkRowsWs (euclidM Real.sqrt) (diagL2M Real.sqrt) S T rows w = true)
+    (hW : IsWs (pts S) (pts T) w) :
+    ∃ p : PM (PIdx S) (PIdx T), p.sumCost (cW (pts S) (pts T)) (uW (pts S)) (uW (pts T)) = w
+      ∧ ∀ q : PM (PIdx S) (PIdx T), p.sumCost (cW (pts S) (pts T)) (uW (pts S)) (uW (pts T))
+          ≤ q.sumCost (cW (pts S) (pts T)) (uW (pts S)) (uW (pts T)) := by
+  rw [euclidM_eq, diagL2M_eq] at h
+  exact certificate_is_optimal_ws euclid diagL2 S T rows w h hW
+
+end Reals
+
+/-! ### non-vacuity: concrete rows accepted / rejected (executed by the kernel at `Rat`, the type the
+    driver op `cert.rows.bn` runs at) -/
+
+section Examples
+
+private def S0 : List (Rat × Rat) := [(0, 2), (1, 4)]
+private def T0 : List (Rat × Rat) := [(0, 3)]
+
+-- an optimal matching of S0, T0: (0,2)–(0,3) costs 1, (1,4) goes to the diagonal at 3/2
+example : checkRowsBn linfM diagInfM S0 T0 [⟨0, 0, 1⟩, ⟨1, -1, 3/2⟩] (3/2) = true := by decide +kernel
+-- row order is irrelevant
+example : checkRowsBn linfM diagInfM S0 T0 [⟨1, -1, 3/2⟩, ⟨0, 0, 1⟩] (3/2) = true := by decide +kernel
+-- a feasible but different matching is accepted with ITS maximum (any matching is checked, not compared)
+example : checkRowsBn linfM diagInfM S0 T0 [⟨0, -1, 1⟩, ⟨1, 0, 1⟩] 1 = true := by decide +kernel
+-- a duplicated index
+example : checkRowsBn linfM diagInfM S0 T0 [⟨0, 0, 1⟩, ⟨0, -1, 1⟩, ⟨1, -1, 3/2⟩] (3/2) = false := by decide +kernel
+-- a point that is in no row
+example : checkRowsBn linfM diagInfM S0 T0 [⟨0, 0, 1⟩] 1 = false := by decide +kernel
+-- a wrong cost
+example : checkRowsBn linfM diagInfM S0 T0 [⟨0, 0, 1⟩, ⟨1, -1, 3⟩] 3 = false := by decide +kernel
+-- a (−1,−1) row
+example : checkRowsBn linfM diagInfM S0 T0 [⟨0, 0, 1⟩, ⟨1, -1, 3/2⟩, ⟨-1, -1, 0⟩] (3/2) = false := by decide +kernel
+-- an index out of range (the −1 convention dropped: column index ≥ N)
+example : checkRowsBn linfM diagInfM S0 T0 [⟨0, 0, 1⟩, ⟨1, 2, 3/2⟩] (3/2) = false := by decide +kernel
+-- a maximum that is not attained / too small
+example : checkRowsBn linfM diagInfM S0 T0 [⟨0, 0, 1⟩, ⟨1, -1, 3/2⟩] 2 = false := by decide +kernel
+example : checkRowsBn linfM diagInfM S0 T0 [⟨0, 0, 1⟩, ⟨1, -1, 3/2⟩] 1 = false := by decide +kernel
+-- the sum version (the checker is generic in the cost rule; `sqrt` is not available at `Rat`)
+example : checkRowsWs linfM diagInfM S0 T0 [⟨0, 0, 1⟩, ⟨1, -1, 3/2⟩] (5/2) = true := by decide +kernel
+example : checkRowsWs linfM diagInfM S0 T0 [⟨0, 0, 1⟩, ⟨1, -1, 3/2⟩] (3/2) = false := by decide +kernel
+-- an empty side is index 0 of [(0,0)]
+example : checkRowsBn linfM diagInfM [] T0 [⟨0, -1, 0⟩, ⟨-1, 0, 3/2⟩] (3/2) = true := by decide +kernel
+example : checkRowsBn linfM diagInfM [] T0 [⟨0, 0, 3⟩] 3 = true := by decide +kernel
+example : checkRowsBn linfM diagInfM [] T0 [⟨-1, 0, 3/2⟩] (3/2) = false := by decide +kernel
+example : checkRowsBn linfM diagInfM [] [] [⟨0, 0, 0⟩] 0 = true := by decide +kernel
+
+-- the extraction loops on the model's matrix of S0, T0 and the assignment 0↦0, 1↦2 (its diagonal
+-- slot), 2↦1 (zero block, dropped): hypotheses of the extraction theorems are met …
+example : [0, 2, 1].Perm (List.range (2 + 1)) := by decide
+example : AllFinite 2 1 (augD linfM diagInfM S0 T0) [0, 2, 1] := by unfold AllFinite; decide +kernel
+example : IsAug S0.length T0.length (cOf linfM S0 T0) (uOf diagInfM S0) (uOf diagInfM T0)
+    (augD linfM diagInfM S0 T0) := augD_isAug linfM diagInfM S0 T0
+-- … and the conclusion, computed
+example : extractRowsBn 2 1 (augD linfM diagInfM S0 T0) [0, 2, 1] = some [⟨0, 0, 1⟩, ⟨1, -1, 3/2⟩] := by
+  decide +kernel
+example : extractRowsWs 2 1 (augD linfM diagInfM S0 T0) [0, 2, 1] = some [⟨0, 0, 1⟩, ⟨1, -1, 3/2⟩] := by
+  decide +kernel
+-- an assignment through an ∞ entry is rejected, not defaulted
+example : extractRowsBn 2 1 (augD linfM diagInfM S0 T0) [0, 1, 2] = none := by decide +kernel
+-- `LeastFeasible` is satisfiable: for [(0,2)] vs [(0,3)] every perfect matching uses an entry ≥ 1
+example : LeastFeasible 1 1 (augD linfM diagInfM [((0 : Rat), (2 : Rat))] [(0, 3)]) 1 := by
+  intro τ hτ _
+  obtain ⟨j, hj, hlt⟩ := perm_get hτ 0 (by decide)
+  refine ⟨0, by decide, 1, ?_, by decide +kernel⟩
+  have : j = 0 ∨ j = 1 := by omega
+  rcases this with rfl | rfl <;> simp only [selected, hj, Option.bind_some] <;> decide +kernel
+
+end Examples
+
 end PersimVerif.C06
